@@ -1,7 +1,7 @@
 (* Props/C04.v — expired entries are reclaimed within about one tick of their deadline *)
 From Coq Require Import ZArith List Bool.
 From Verif Require Import Base.Word64 Model.Wheel Proof.WheelP Proof.WheelA Proof.WheelT.
-From Verif Require Import Gen.Consts Gen.Kernels.
+From Verif Require Import Gen.Consts Gen.Kernels Proof.WheelSync.
 Import ListNotations.
 Open Scope Z_scope.
 
@@ -50,6 +50,18 @@ Theorem c04_tables_in_sync :
   map (fun i => 2 ^ shiftOf i) [0; 1; 2; 3; 4] = map spanOf [0; 1; 2; 3; 4].
 Proof. repeat split; reflexivity. Qed.
 Print Assumptions c04_tables_in_sync.
+
+(* ... and so is the function that places an entry: TimerWheel.findIndex as translated from timerwheel.go on this run
+   (loop over the five wheels unrolled, receiver tables looked up, int64 / int conversions as explicit wrap-arounds)
+   equals the model's findIndex for every wheel time and every int64 deadline *)
+Theorem c04_findIndex_in_sync : forall nanos exp, - two63 <= exp < two63 ->
+  g_findIndex nanos exp = findIndex nanos exp.
+Proof. exact findIndex_in_sync. Qed.
+Print Assumptions c04_findIndex_in_sync.
+
+Theorem c04_shift_table_in_sync : c_wheel_shift = map shiftOf [0; 1; 2; 3; 4].
+Proof. exact wheel_shift_in_sync. Qed.
+Print Assumptions c04_shift_table_in_sync.
 
 (* non-vacuity: a concrete history with entries on three levels meets the preconditions,
    and the one-day entry is reported by the first advance past its deadline *)
